@@ -51,7 +51,7 @@ func BuildFeaturePkg(f Feature, idx int, family, tag string, names *Names, withS
 	}
 	rootFull := pkg + "." + rootLocal
 	if f.Nest {
-		holder := &spec.Message{Name: "Holder", Nested: b.Msgs, Enums: b.Enums,
+		holder := &spec.Message{Name: "Holder", Nested: b.Msgs, Enums: b.Enums, EntriesFirst: true,
 			Fields: []*spec.Field{spec.F("labels", 1, spec.String).MapOf(spec.String), spec.F("holder_note", 2, spec.String)}}
 		file.Messages, file.Enums = []*spec.Message{holder}, nil
 		rootFull = pkg + ".Holder." + rootLocal
